@@ -694,14 +694,19 @@ def device_program(rng, skeleton=None, skeleton_ty=None):
 OTHER_PYTHONS = ["/usr/bin/python3.11", "/root/miniconda/bin/python", "/root/.pyenv/versions/3.10.13/bin/python"]
 
 
-def transpile(sources, seed, texts=False, script=None, adv=None, python=None):
+# another process environment: locale, time zone, home, terminal width, and the verification hook switched off
+OTHER_ENV = {"LANG": "tr_TR.UTF-8", "LC_ALL": "C", "TZ": "Pacific/Kiritimati", "HOME": "/nonexistent", "COLUMNS": "20", "USER": "someone-else",
+             "REDUINO_VERIF": "0", "PYTHONUTF8": "1"}
+
+
+def transpile(sources, seed, texts=False, script=None, adv=None, python=None, env=None):
     payload = {"mode": "session" if script is not None else "transpile", "sources": sources, "texts": texts}
     if script is not None:
         payload["script"] = script
     if adv:
         payload["adv"] = adv
     kw = {"python": python} if python else {}
-    r = C.run_impl("c10_impl.py", payload, env_extra={"PYTHONHASHSEED": str(seed)}, timeout=1200, **kw)
+    r = C.run_impl("c10_impl.py", payload, env_extra={"PYTHONHASHSEED": str(seed), **(env or {})}, timeout=1200, **kw)
     if str(r.get("hashseed")) != str(seed):
         raise RuntimeError(f"runner reports hash seed {r.get('hashseed')} instead of {seed}")
     if (r.get("adv") or None) != (adv or None):
@@ -715,12 +720,16 @@ def run_variant(sources, v, seed0, texts=False):
         return transpile(sources, v[1], texts=texts)
     if v[0] == "py":
         return transpile(sources, v[2], texts=texts, python=v[1])
+    if v[0] == "env":
+        return transpile(sources, seed0, texts=texts, env=OTHER_ENV)
     return transpile(sources, seed0, texts=texts, adv=v[1])
 
 
 def vname(v):
     if v[0] == "py":
         return f"{v[1]} PYTHONHASHSEED={v[2]}"
+    if v[0] == "env":
+        return "environment " + " ".join(f"{k}={x}" for k, x in sorted(OTHER_ENV.items()))
     return f"PYTHONHASHSEED={v[1]}" if v[0] == "seed" else f"set-order={v[1]}"
 
 
@@ -847,7 +856,7 @@ def run(ctx: C.Ctx):
 
     # ------------------------------------------------------------------ transpile under every seed (one process per seed)
     adv_keys = ["asc", "desc", "k%d" % rng.randrange(10 ** 6)] + (["k%d" % rng.randrange(10 ** 6) for _ in range(3)] if thorough else [])
-    variants = [("seed", sd) for sd in seeds] + [("adv", k) for k in adv_keys]
+    variants = [("seed", sd) for sd in seeds] + [("adv", k) for k in adv_keys] + [("env", "other")]
     v0 = variants[0]
     per_seed = {}
     for v in variants:
@@ -876,6 +885,9 @@ def run(ctx: C.Ctx):
         diff = udiff(ta.get("cpp", ""), tb.get("cpp", ""), vname(a), vname(b))
         if b[0] == "py":
             how = f"PYTHONHASHSEED={a[2]} vs {b[2]} with interpreter {b[1]} (PYTHONPATH=/repo/src): emit(parse(program))"
+        elif b[0] == "env":
+            how = ("same hash seed, another process environment: env " + " ".join(f"{k}={x}" for k, x in sorted(OTHER_ENV.items())) +
+                   " PYTHONPATH=/repo/src python -c '... print(emit(parse(open(sys.argv[1]).read())))' program.py")
         elif b[0] == "seed":
             how = (f"PYTHONHASHSEED={a[1]} vs {b[1]}: PYTHONPATH=/repo/src python -c 'import sys; from Reduino.transpile.parser import parse; "
                    "from Reduino.transpile.emitter import emit; print(emit(parse(open(sys.argv[1]).read())))' program.py")
@@ -895,7 +907,10 @@ def run(ctx: C.Ctx):
             evaluations += 1
             sb = per_seed[v]["results"][i]["sha"]
             if sb != p["ref"]["sha"]:
-                if v[0] == "seed":
+                if v[0] == "env":
+                    report("environment", p, v0, v, p["ref"]["sha"], sb,
+                           "emitted C++ differs between two processes that differ only in their environment (locale, time zone, home, user, hook switch)")
+                elif v[0] == "seed":
                     report("hashseed", p, v0, v, p["ref"]["sha"], sb,
                            "emitted C++ differs between two hash seeds for a program inside the guard")
                 else:
